@@ -174,6 +174,11 @@ def complex_add(document, cls, tags):
 
     if cls.Attributes._xml_tag_body_as is not None:
         for xtba_key, xtba_type in cls.Attributes._xml_tag_body_as:
+            # the interface files the XmlData class itself under the name of
+            # the type it wraps, so a customized type is not among the classes
+            # the document is built from: define it here.
+            document.add(xtba_type.type, tags)
+
             _sc = etree.SubElement(sequence_parent, XSD('simpleContent'))
             xtba_ext = etree.SubElement(_sc, XSD('extension'))
             xtba_ext.attrib['base'] = xtba_type.type.get_type_name_ns(
